@@ -9,7 +9,7 @@ THEOREMS = ["Econf.C17_line", "Econf.C17_comment_block", "Econf.C17_comment_bloc
             "Leaf.C_trim", "Leaf.C_ltrim", "Leaf.trim_eq", "Leaf.spc_eq"]
 # string helpers translated from the C source on every run (gen/c2lean.py); theorems in lean/Econf/Props/Leaf.lean
 LEAF_FNS = ["ltrim", "rtrim", "trim"]
-RULE = ("conventional documents with comment blocks, trailing comments and multi-line values over-represented, read by absolute name, "
+RULE = ("conventional documents with comment blocks, trailing comments (also behind the later lines of a value) and multi-line values over-represented, read by absolute name, "
         "by relative names (after chdir) and through a symbolic link; every key's extended value and the path query are compared with "
         "the document; a merged result (econf_mergeFiles, and a layered read of the document plus one or two drop-ins, some without entries) must report the empty path; distinct by (content, sets, way of naming the file)")
 PATH = b"/etc/app/doc.conf"
@@ -21,7 +21,7 @@ WAYS = [("abs", None, PATH), ("rel_same_dir", b"/etc/app", b"doc.conf"), ("rel_d
 def make(rng, sid, hist):
     delim = rng.choice(docs.DELIMS)
     comment = rng.choice(docs.COMMENTS)
-    g = gen_doc.Gen(rng, delim, comment, hist=hist)
+    g = gen_doc.Gen(rng, delim, comment, hist=hist, cont_comments=rng.random() < 0.5)
     items = []
     for _ in range(rng.randint(1, 12)):
         for _ in range(rng.randint(0, 3)):
